@@ -63,3 +63,11 @@ def crc8404B_default(vc):
                            ("fits16", vc.And(0 <= L.cur_crc, L.cur_crc < 65536))])
     r = M.crc8404B(data)
     vc.prove("post.equals-spec", r == spec.at(n))
+
+
+# where the checksum is USED: the auth-block frame stores exactly BE2(crc8404B(payload)) - all 16 bits, 0xFFFF included
+# (the frame contract of C08, an obligation here too: a CRC that is right but stored wrongly is not "the same CRC")
+from pyvc.harness import reuse as _reuse
+from contracts import C08 as _C08x
+_reuse("C08/encrypt.frame", "C15/auth-block-frame.stores-BE2(crc)")
+_reuse("C08/decrypt.inverse", "C15/auth-block-frame.crc-verified-on-unwrap")
